@@ -280,6 +280,8 @@ pub fn run_check(check: &'static dyn Check, opts: RunOpts) -> i32 {
     // ---- violations: dedupe by signature, write replay files
     let mut seen = HashSet::new();
     let mut viol_lines = vec![];
+    // smallest (phase, index) first so that the reported instance of a signature is the smallest one found
+    m.viols.sort_by_key(|v| (v["phase"].as_u64().unwrap_or(0), v["rendered"].as_str().map(|s| s.len()).unwrap_or(0), v["index"].as_u64().unwrap_or(0)));
     for v in &m.viols {
         let sig = v["sig"].as_str().unwrap_or("?").to_string();
         if !seen.insert(sig.clone()) {
